@@ -19,6 +19,8 @@ QUICK = [
     ('full_exec', dict(T=3, full_exec=True, orders=((0, 2, 2.0), (1, 3, -1.5), (4, 6, 1.0))), 'A'),
     ('nested_no_storage', dict(T=4, storage=False, orders=((0, 4, 1.0), (1, 3, -2.0), (2, 3, 1.0))), 'A'),
     ('symbolic_capacity', dict(T=2, orders=((0, 2, 2.0), (1, 2, -1.5))), 'B'),
+    ('daily_grid_wacc', dict(T=3, freq='d', wacc=True, orders=((0, 2, 2.0), (1, 3, -1.5))), 'A'),
+    ('repeated_setup_same_grid', dict(T=3, wacc=True, late_companion=True, warmup=True), 'A'),
 ]
 THOROUGH = QUICK + [
     ('overlapping_T4_wacc', dict(T=4, wacc=True, orders=((0, 2, 2.0), (1, 4, -1.5), (1, 2, 1.0), (3, 4, 3.0))), 'A'),
@@ -41,7 +43,9 @@ def cases(tier, seed):
 
 def run_case(case_id, tier, seed, kw, level):
     rec = lpsem.Rec(PROP, case_id)
-    res = scen.explore('orderbook', kw, level=level, with_output=True)
+    kw = dict(kw)
+    warmup = kw.pop('warmup', False)
+    res = scen.explore('orderbook', kw, level=level, with_output=True, warmup=warmup)
     rec.paths = len(res)
     validated = False
     for pi, (path, D) in enumerate(res):
@@ -54,6 +58,8 @@ def run_case(case_id, tier, seed, kw, level):
             continue
         sc = path.result
         spec, R, lp = embed_ref.check(rec, P, D, path, sc.sh, sc.op)
+        if any(c['info'].get('kind') == 'keys' for c in rec.candidates):
+            continue
         # ---- reporting (Q1 over all feasible x, real extract_output)
         x = [zl(v) for v in sc.x]
         assume = list(D.pre) + path.pc + sym.atom_constraints() + lp.feas(x)
@@ -91,7 +97,9 @@ def run_case(case_id, tier, seed, kw, level):
 
 def observe(case, kwargs, env, rq):
     D = lift.Domain(theta=env)
-    sc = scen.run(D, 'orderbook', kwargs.get('kw'), None, True, env=env)
+    kw_ = dict(kwargs.get('kw'))
+    warmup = kw_.pop('warmup', False)
+    sc = scen.run(D, 'orderbook', kw_, None, True, env=env, warmup=warmup)
     o = embed_ref.observe(sc.sh, sc.op, env, rq)
     o.update(scen.observation(sc))
     if rq.get('kind') == 'replay':
@@ -106,7 +114,7 @@ def judge(case, kwargs, cand, ans):
     info = cand.get('info', {})
     if cand.get('form') == 'crash' or 'crash' in info:
         return (True, 'raises on an in-domain input: ' + ans['error'][:200]) if 'error' in ans else (False, 'no exception')
-    if 'dir' in info:
+    if 'dir' in info or info.get('kind') == 'keys':
         return embed_ref.judge(cand, ans)
     if 'error' in ans:
         return None, ans['error']
